@@ -74,7 +74,10 @@ class AnalyticProposal(Proposal):
             Keyword arguments passed to \
                 :py:meth:`~nessai.proposal.analytic.AnalyticProposal.populate`
         """
-        if not self.populated:
+        # A pool with no samples left is not populated, even if the flag
+        # has not been reset yet (e.g. after resuming from a checkpoint
+        # written between the last draw and the reset)
+        if not self.populated or not self.indices:
             st = datetime.datetime.now()
             self.populate(**kwargs)
             self.population_time += datetime.datetime.now() - st
